@@ -35,8 +35,8 @@ CHECKS.update({
 })
 CHECKS.update({
  'C07': ('exploration', '4/C07', 'seeded hostile-echo workloads plus the C01/C06/C10 generators; strict independent response parser over every byte written',
-         'Seeded workloads make the server echo client-chosen data (mailbox names with quotes, backslashes, CR/LF, NUL, 8-bit and non-ASCII, hostile headers, MIME parameters and nesting shapes) through LIST/LSUB/STATUS/FETCH/SEARCH/STORE/ID; the complete byte stream of every connection is parsed by a strict parser written from the RFC 3501 grammar, independent of pymap.parsing. The C06 input generator and the C01/C10 multi-command generators feed the same monitor.',
-         'Trusted: sim/wire.py as the reading of the grammar; it enforces what the statement lists (complete CRLF lines, literal counts, quoted-string content, balanced lists, shapes of FETCH/LIST/STATUS/ENVELOPE/BODYSTRUCTURE/response codes) and accepts empty resp-text and 8-bit bytes in quoted strings.'),
+         'Seeded workloads make the server echo client-chosen data (mailbox names with quotes, backslashes, CR/LF, NUL, 8-bit and non-ASCII, hostile headers, MIME parameters and nesting shapes up to chains of 1200 messages inside messages, APPEND date-time spellings) through LIST/LSUB/STATUS/FETCH/SEARCH/STORE/ID; the complete byte stream of every connection is parsed by a strict parser written from the RFC 3501 grammar, independent of pymap.parsing. The C06 input generator and the C01/C10 multi-command generators feed the same monitor.',
+         'Trusted: sim/wire.py as the reading of the grammar; it enforces what the statement lists (complete CRLF lines, literal counts, quoted-string content, balanced lists, shapes of FETCH/LIST/STATUS/ENVELOPE/BODYSTRUCTURE with its extension data/response codes, non-empty resp-text, seven-bit quoted strings, no request-only .PEEK item names in responses). Its own bound: 120 body levels / 260 list levels, above what the server emits since nesting is parsed to 100 levels.'),
 })
 CHECKS.update({
  'C19': ('exploration', '4/C19', 'exhaustive pre-authentication programs (length <= 2) plus seeded command programs on the simulated ManageSieve listener; dictionary model per user',
@@ -48,25 +48,25 @@ CHECKS.update({
 })
 CHECKS.update({
  'C09': ('exploration', '4/C09', 'seeded attempt sequences over credentials, mechanisms, TLS/peer configurations and mid-exchange EOF/reset; authentication model + whoami reveal',
-         'Seeded sequences of 1-6 authentication attempts (LOGIN, AUTHENTICATE PLAIN with authzid, AUTHENTICATE LOGIN; right, wrong, empty, oversized and malformed secrets, cancel, EOF and reset while the server waits) under every TLS/peer/STARTTLS configuration, on the IMAP and ManageSieve listeners; after every attempt a LIST (LISTSCRIPTS) must be accepted iff the model says authenticated and a marker mailbox (script) must name the identity the model expects.',
+         'Seeded sequences of 1-6 authentication attempts (LOGIN, AUTHENTICATE PLAIN with authzid, AUTHENTICATE LOGIN; right, wrong, empty, oversized and malformed secrets, cancel, EOF and reset while the server waits) under every TLS/peer/STARTTLS configuration, on the IMAP and ManageSieve listeners (ManageSieve with UNAUTHENTICATE between attempts; both on dict and maildir); after every attempt a LIST (LISTSCRIPTS) must be accepted iff the model says authenticated and a marker mailbox (script) must name the identity the model expects.',
          'Trusted: the authorization model stated in the evidence assumptions; marker mailboxes created at set-up identify the acting user; 0.3 s invalid-user sleep runs on the virtual clock.'),
  'C11': ('exploration', '4/C11', 'seeded namespace programs; namespace model + own wildcard matcher and modified-UTF-7 decoder; probe dumps around RENAME',
-         'Seeded programs of namespace commands over hostile hierarchical names are compared step by step with a model of the name set, the subscribed set and per-mailbox identity/contents; LIST/LSUB results are judged by an independent matcher ("*" any, "%" any but "/"), every listed name is decoded with the harness\'s own modified-UTF-7 decoder, and RENAME must preserve UIDs, contents, UIDVALIDITY and MAILBOXID of the mailbox and its inferiors.',
+         'Seeded programs of namespace commands over hostile hierarchical names (including the store\'s own directory and control-file names, names ending or starting with a space, INBOX/... names and never-created ancestors) are compared step by step with a model of the name set, the subscribed set and per-mailbox identity/contents; LIST/LSUB results are judged by an independent matcher ("*" any, "%" any but "/"), every listed name is decoded with the harness\'s own modified-UTF-7 decoder, and RENAME must preserve UIDs, contents, UIDVALIDITY and MAILBOXID of the mailbox and its inferiors.',
          'Trusted: the namespace model and matcher in profiles/c11.py; behaviours the statement leaves open (inferiors of INBOX, \\Noselect names, subscribed-but-missing names) are accepted either way.'),
 })
 CHECKS.update({
  'C13': ('exploration', '4/C13', 'seeded mailboxes and search programs; independent evaluator, SEARCH/UID SEARCH mapping through the shadow, equivalence rewrites',
          'Seeded mailboxes of generated messages (flags, keywords, sizes, internal and sent dates in several time zones around midnight, header and body vocabulary) are searched with seeded programs to nesting depth 4 over every supported key; an evaluator written from RFC 3501 6.4.4, independent of pymap.search, gives the expected set over the session\'s view (hidden expunged messages may be in or out), UID and sequence results are mapped through the shadow, and logically equivalent rewrites must return the same set.',
-         'Trusted: the evaluator in profiles/c13.py; two readings of "disregarding time and timezone" are accepted; needles are alphanumeric so that header-value vs parsed-address matching cannot differ.'),
+         'Trusted: the evaluator in profiles/c13.py; two readings of "disregarding time and timezone" are accepted; header keys are read against the text of the header (the open finding F-C13-header-normalised is named only when the answer equals the evaluator\'s answer over the header registry\'s rewritten values). A legal program must be answered OK unless it names a sequence number beyond the view.'),
 })
 CHECKS.update({
  'C03': ('exploration', '4/C03', 'seeded input generation of message byte strings executed in the simulator (literal kinds, chunked delivery, MULTIAPPEND, concurrent COPY/MOVE); byte-equality oracle with diagnosis',
-         'Seeded byte strings (structured generator over header/separator/line-ending/MIME shapes, hostile generators, raw bytes, up to 64 KiB, byte mutations) are appended through the simulated connection with {n} or {n+} literals and seeded chunking, optionally copied or moved by a second session while the first fetches; BODY[], RFC822, RFC822.SIZE, BODY[HEADER]+BODY[TEXT], partial ranges and the octet counts of every leaf part in BODYSTRUCTURE are compared with the appended bytes for the source and the copy.',
+         'Seeded byte strings (structured generator over header/separator/line-ending/MIME shapes, hostile generators, raw bytes, up to 64 KiB, byte mutations) are appended through the simulated connection with {n} or {n+} literals and seeded chunking, optionally copied or moved by a second session while the first fetches; BODY[], RFC822, RFC822.SIZE, BODY[HEADER]+BODY[TEXT], partial ranges, BODY[1] = BODY[TEXT] for non-multiparts and the octet counts of every leaf part in BODYSTRUCTURE (RFC 3501 part numbering, through message/rfc822 parts) are compared with the appended bytes for the source and the copy.',
          'The statement is a function of the input bytes and the backend; the simulator contributes the delivery path, storage and the second session, the deciding step is seeded input generation. Trusted: the strict response parser that extracts literals.'),
 })
 CHECKS.update({
  'C18': ('exploration', '4/C18', 'metamorphic pairs of deterministic runs (plain vs. respelled program); harness modified-UTF-7 decoder; direct-call round trip of parsed values',
-         'Each seeded symbolic program is executed twice from identical initial state in the simulator, once in plain spelling and once with every astring independently spelled as atom/quoted/{n}/{n+} (literals possibly sent before the continuation request, chunked anywhere), random case of command words, flags and attributes; tagged results, untagged data and final mailbox dumps must be equal, and every name reported by LIST/LSUB/STATUS must decode, with the harness\'s own decoder, to a name that was sent. The round-trip clause is checked by direct calls to the parse classes on seeded values - no simulator is involved in that clause.',
+         'Each seeded symbolic program is executed twice from identical initial state in the simulator, once in plain spelling and once with every astring independently spelled as atom/quoted/{n}/{n+}/zero-padded {0..0n}/{0..0n+} (literals possibly sent before the continuation request, chunked anywhere), random case of command words, flags and attributes; tagged results, untagged data and final mailbox dumps must be equal, and every name reported by LIST/LSUB/STATUS must decode, with the harness\'s own decoder, to a name that was sent. The round-trip clause is checked by direct calls to the parse classes on seeded values - no simulator is involved in that clause.',
          'Trusted: simulator determinism for the pairing; only canonical modified-UTF-7 and no extra spacing are generated.'),
 })
 CHECKS.update({
